@@ -10,5 +10,7 @@ CONSTANTS
   SharedCatchPrev = FALSE
   AdvSet = {1}
   MaxTime = 0
+  Keep = TRUE
+  WithEvict = TRUE
 POSTCONDITION TraceAccepted
 CHECK_DEADLOCK FALSE
